@@ -42,6 +42,8 @@ def main():
     ap.add_argument("--props")
     ap.add_argument("--tier", default="quick")
     ap.add_argument("--skip-validate", action="store_true")
+    ap.add_argument("--seed", help="VERIF_SEED for the check (default: the check's own default seed); the outcome is "
+                                   "recorded under verif.checks_seed_<n> and does not replace the default-seed result")
     ap.add_argument("--root", default="/verif/seeded",
                     help="/verif/benign for the behaviour-preserving changes (the checks must stay silent)")
     a = ap.parse_args()
@@ -49,7 +51,7 @@ def main():
     meta = json.load(open(f"{d}/meta.json"))
     props = a.props.split(",") if a.props else [meta["property"]]
     tag = "b_" if a.root.endswith("benign") else ""
-    wt = f"/tmp/wt_seed_{tag}{a.sid}"
+    wt = f"/tmp/wt_seed_{tag}{a.sid}" + (f"_s{a.seed}" if a.seed else "")
     subprocess.run(["git", "-C", "/repo", "worktree", "remove", "--force", wt],
                    stdout=subprocess.DEVNULL, stderr=subprocess.DEVNULL)
     rc, out, _ = sh(["git", "-C", "/repo", "worktree", "add", "--detach", wt, "HEAD"])
@@ -57,7 +59,7 @@ def main():
         print(out)
         return 2
     # run the checks from a snapshot of /verif, so that editing the harness meanwhile cannot disturb them
-    snap = f"/tmp/vsnap_{tag}{a.sid}"
+    snap = f"/tmp/vsnap_{tag}{a.sid}" + (f"_s{a.seed}" if a.seed else "")
     shutil.rmtree(snap, ignore_errors=True)
     subprocess.run(["rsync", "-a", "--exclude", "_work", "--exclude", "seeded", "--exclude", "replays",
                     "--exclude", "evidence", "--exclude", ".git", "/verif/", snap + "/"], check=True)
@@ -90,8 +92,10 @@ def main():
             print(f"[{a.sid}] tests: {res['tests_with_mutant']} | demo repo={rc0} mutant={rc1} | valid={res['valid']}")
         checks = {}
         for p in props:
-            rc, out, dt = sh([snap + "/check", p, "--tier", a.tier], cwd=snap,
-                             env=dict(VERIF_REPO=wt, VERIF_ROOT=snap), timeout=5400)
+            env = dict(VERIF_REPO=wt, VERIF_ROOT=snap)
+            if a.seed:
+                env["VERIF_SEED"] = a.seed
+            rc, out, dt = sh([snap + "/check", p, "--tier", a.tier], cwd=snap, env=env, timeout=5400)
             viol = [ln for ln in out.split("\n") if ln.startswith("VIOLATION")]
             detail = [ln.strip() for ln in out.split("\n") if ln.strip().startswith("violation ")]
             checks[p] = dict(exit=rc, wall_s=dt, violations=len(viol),
@@ -109,6 +113,11 @@ def main():
                        stdout=subprocess.DEVNULL, stderr=subprocess.DEVNULL)
         shutil.rmtree(snap, ignore_errors=True)
     old = meta.get("verif", {})
+    if a.seed:          # a supplementary run under another seed: recorded beside the main result
+        old[f"checks_seed_{a.seed}"] = res.get("checks", {})
+        meta["verif"] = old
+        json.dump(meta, open(f"{d}/meta.json", "w"), indent=1)
+        return 0
     if a.skip_validate:
         for k in ("tests_with_mutant", "tests_pass", "demo_on_repo_exit", "demo_on_mutant_exit",
                   "demo_on_mutant_tail", "valid"):
